@@ -186,6 +186,8 @@ type caseT struct {
 	Hostile   bool     `json:"hostile"`
 	// Orders: also run under every map-iteration order (<=1 deviating range execution) in gen and internal/plugin
 	Orders bool `json:"orders"`
+	// InProcessOnly: the fake executables read one script per plugin name, so two instances with different answers exist only in-process
+	InProcessOnly bool `json:"in_process_only"`
 }
 
 const svcIDL = "struct Req { 1: optional string a }\nservice Svc { Req echo(1: Req r) }\n"
@@ -266,6 +268,15 @@ func cases(quick bool) []caseT {
 		c.WantFail, c.Hostile, c.Orders = true, true, true
 		out = append(out, c)
 	}
+	// the same plugin requested twice: both instances produce the same path
+	c = base("one plugin requested twice, same path")
+	c.Plugins = []plugSpec{ok("p1", map[string]string{"dup/x.txt": "1"}), ok("p1", map[string]string{"dup/x.txt": "1"})}
+	c.WantFail, c.Hostile = true, true
+	out = append(out, c)
+	c = base("one plugin requested twice, same path with different content and other files")
+	c.Plugins = []plugSpec{ok("p1", map[string]string{"dup/x.txt": "1", "a1/o.txt": "o"}), ok("p1", map[string]string{"dup/x.txt": "2", "zz/o.txt": "o"})}
+	c.WantFail, c.Hostile, c.InProcessOnly = true, true, true
+	out = append(out, c)
 	c = base("two plugins, disjoint paths")
 	c.Plugins = []plugSpec{ok("p1", map[string]string{"p1/x.txt": "1"}), ok("p2", map[string]string{"p2/x.txt": "2"})}
 	c.CoreFiles = append(c.CoreFiles, "p1/x.txt", "p2/x.txt")
@@ -433,7 +444,18 @@ func (r *runner) inProcessOrders(c caseT) {
 		}
 		_ = lab
 	}
-	ex.Run()
+	func() {
+		// the two plugins of a case answer concurrently and internal/plugin's own map
+		// iterations are not owned here: if that makes a recorded prefix unreplayable the
+		// exploration of this case is abandoned (counted), the executions done so far stand
+		defer func() {
+			if p := recover(); p != nil {
+				vmap.Chooser = nil
+				r.w.Count("order_explorations_abandoned(replay diverged)", 1)
+			}
+		}()
+		ex.Run()
+	}()
 	r.w.R.States += ex.Stats.States
 	r.w.R.Transitions += ex.Stats.Transitions
 	r.w.Count("executions_under_map_orders", ex.Stats.Executions)
@@ -447,6 +469,9 @@ func (r *runner) inProcess(c caseT) {
 	func() {
 		defer func() {
 			if p := recover(); p != nil {
+				if strings.Contains(fmt.Sprint(p), "replay divergence") {
+					panic(p) // the explorer's own signal, not the product's: handled in inProcessOrders
+				}
 				runErr = fmt.Errorf("PANIC %v", p)
 			}
 		}()
@@ -547,7 +572,7 @@ func run(w *ev.W) {
 			r.inProcessOrders(c)
 		}
 		// process level: everything that is not one of the bulk path cases, and every 9th path case
-		if !strings.HasPrefix(c.Desc, "path ") || i%9 == 0 || strings.Contains(c.Desc, "..") && i%3 == 0 {
+		if !c.InProcessOnly && (!strings.HasPrefix(c.Desc, "path ") || i%9 == 0 || strings.Contains(c.Desc, "..") && i%3 == 0) {
 			w.Progress("process " + c.Desc)
 			r.process(c, w.Args["thriftrw"], w.Args["pluginbin"])
 			w.Count("process_level_runs", 1)
